@@ -21,6 +21,7 @@ import EaselModel.Weights.ConsLemmas
 import EaselModel.Weights.SampleLemmas
 import EaselModel.Weights.Transfer
 import EaselModel.Weights.TieRule
+import EaselModel.Weights.TreeOpsLemmas
 /-! # C16 — sequence weights, identity filtering and clustering follow their definitions
 
   Theorems about the `ℚ` instance of the executable model `EaselModel.Weights` (the `Float` instance of the same
@@ -1096,6 +1097,15 @@ theorem gsc_tieRule_irrelevant_without_ties (pick : KState ℚ → Nat × Nat) (
     (rows : List Row) (hne : rows ≠ []) (htf : TieFree m rows) : gscWith pick m rows = gsc (α := ℚ) m rows :=
   gscWith_eq_gsc_of_tieFree pick hp m rows hne htf
 
+/-- GSC weights are N numbers ≥ 0 summing to N WHATEVER pair each pass of `cluster_engine` joins (`pick` is unconstrained: it
+    need not even return a minimum). So sum and non-negativity also hold along the decisions the binary64 code takes at
+    ties and near-ties, where rounding may make it leave the exact-arithmetic run (`gsc_sum_nonneg` is the instance
+    `firstMin`). The reason is the clamp `ESL_MAX(0., height − child height)`: branch lengths are ≥ 0 in any join order. -/
+theorem gsc_sum_nonneg_any_join_order (pick : KState ℚ → Nat × Nat) (m : Mode) (rows : List Row) (hne : rows ≠ []) :
+    (gscWith pick m rows).length = rows.length ∧ (gscWith pick m rows).sum = rows.length ∧
+      ∀ w ∈ gscWith pick m rows, 0 ≤ w :=
+  gscWith_sum_nonneg pick m rows hne
+
 /-- NO tie rule makes the GSC weights follow the rows under relisting, not even on alignments whose rows are pairwise
     different: for every rule, `AAAA, AABB, BBBB` listed in reverse does not get the reversed weights (the reversed
     alignment has the same distance matrix entry for entry, so a deterministic rule returns the same weight vector — either
@@ -1118,5 +1128,48 @@ example : MinPair tS0 (0, 1) ∧ MinPair tS0 (1, 2) ∧ firstMin tS0 = (0, 1) :=
     rw [hs] at hc
     have : (r = 0 ∧ c = 1) ∨ (r = 0 ∧ c = 2) ∨ (r = 1 ∧ c = 2) := by omega
     rcases this with ⟨rfl, rfl⟩ | ⟨rfl, rfl⟩ | ⟨rfl, rfl⟩ <;> decide +kernel
+
+/-! ## round 6: `esl_tree_Simulate` (takes the generator) never leaves its arrays, for every generator state
+
+  The model `eSimulate` (`Weights/TreeOps.lean`, compared bit-exactly with the C code from `esl_randomness_Create(seed)`) is a
+  fold of `simStep` over the draws (split time, active branch). The C code indexes `T->parent[node]`,
+  `T->left/right/ld/rd[branchpapa[·]]`, `branchpapa/branchside[bidx | nactive-1 | nactive]` unchecked. -/
+
+/-- every generator state: `esl_rnd_Roll(r, nactive)` names an active branch -/
+theorem simulate_roll_names_active_branch (r : EaselModel.Random.Rng) (nactive fuel b : Nat) (r' : EaselModel.Random.Rng)
+    (h : r.roll nactive fuel = some (b, r')) : b < nactive :=
+  roll_lt r nactive fuel b r' h
+
+/-- after any number k ≤ N-2 of turns with branch indices that name active branches: nactive = k+2 = node+1 ≤ N, all arrays
+    keep their sizes, every active branch hangs off an existing node (`SimOK`) -/
+theorem simulate_invariant (N : Nat) (hN : 2 ≤ N) (draws : List (ℚ × Nat)) (hlen : draws.length ≤ N - 2)
+    (hd : drawsOK 2 draws) :
+    SimOK N (draws.foldl (fun s x => simStep s x.1 x.2) (simInit N)) ∧
+      (draws.foldl (fun s x => simStep s x.1 x.2) (simInit N)).nactive = 2 + draws.length :=
+  simRun_ok draws (simInit_ok N hN) (by show 2 + draws.length ≤ N; omega) hd
+
+/-- in such a state every index the next turn of `while (nactive < N)` uses is inside its array -/
+theorem simulate_step_in_bounds {N : Nat} {s : SimSt ℚ} (h : SimOK N s) (hlt : s.nactive < N) {bidx : Nat}
+    (hb : bidx < s.nactive) :
+    s.node < s.T.parent.size ∧ bidx < s.papa.size ∧ bidx < s.side.size ∧
+    s.papa.getD bidx 0 < s.T.left.size ∧ s.papa.getD bidx 0 < s.T.right.size ∧
+    s.papa.getD bidx 0 < s.T.ld.size ∧ s.papa.getD bidx 0 < s.T.rd.size ∧
+    s.nactive - 1 < s.papa.size ∧ s.nactive < s.papa.size ∧
+    (∀ b, b < s.nactive - 1 → (s.papa.swapIfInBounds bidx (s.nactive - 1)).getD b 0 < s.T.ld.size) :=
+  simStep_in_bounds h hlt hb
+
+/-- and so is every index of the final loop that hangs the N taxa onto the N active branches -/
+theorem simulate_finish_in_bounds {N : Nat} {s : SimSt ℚ} (h : SimOK N s) (hN : s.nactive = N) (b : Nat) (hb : b < N) :
+    b < s.papa.size ∧ b < s.side.size ∧ s.papa.getD b 0 < s.T.left.size ∧ s.papa.getD b 0 < s.T.right.size ∧
+      s.papa.getD b 0 < s.T.ld.size ∧ s.papa.getD b 0 < s.T.rd.size :=
+  simFinish_in_bounds h hN b hb
+
+/-- non-vacuity: N = 4, two turns (branch 1, then branch 2), and the tree that results -/
+example : drawsOK (α := ℚ) 2 [(1/2, 1), (1/3, 2)] := ⟨by decide, by decide, trivial⟩
+example : (eSimulate (α := ℚ) 4 [(1/2, 1), (1/3, 2)] (1/4)).left = #[0, -1, -2] ∧
+    (eSimulate (α := ℚ) 4 [(1/2, 1), (1/3, 2)] (1/4)).right = #[1, 2, -3] ∧
+    (eSimulate (α := ℚ) 4 [(1/2, 1), (1/3, 2)] (1/4)).parent = #[0, 0, 1] ∧
+    (eSimulate (α := ℚ) 4 [(1/2, 1), (1/3, 2)] (1/4)).ld = #[13/12, 7/12, 1/4] ∧
+    (eSimulate (α := ℚ) 4 [(1/2, 1), (1/3, 2)] (1/4)).rd = #[1/2, 1/3, 1/4] := by decide +kernel
 
 end EaselModel.Props.C16
